@@ -9,6 +9,7 @@ import argparse
 import collections
 import concurrent.futures
 import faulthandler
+import gc
 import importlib
 import json
 import multiprocessing
@@ -96,10 +97,18 @@ def _worker_init(modname, repo):
     _worker_mod = importlib.import_module(modname)
     if hasattr(_worker_mod, "setup_worker"):
         _worker_mod.setup_worker()
+    # everything imported so far is permanent: keep it out of the per-run collections (see run_one)
+    gc.collect()
+    gc.freeze()
 
 
 def run_one(mod, cfgname, cfg, seed=None, tape=None):
     ch = Chooser(seed=seed, tape=tape)
+    # The cyclic garbage collector runs only here, between runs: inside a run its timing would depend on the
+    # allocation history of the worker process, and finalizers (asyncio async-generator hooks, coroutine close,
+    # transport __del__) can schedule work on a loop - a source of nondeterminism that one run in ~1300 showed.
+    gc.disable()
+    gc.collect()
     t0 = time.time()
     try:
         out = mod.scenario(ch, dict(cfg))
